@@ -263,10 +263,11 @@ def grid(tier, seed):
     pats = ["CFW", "FWC", "WCF", "CCF", "FFW", "CWC"]
     v = 0
     for count in counts:
-        for m in range(1, maxops + 1):
-            for n in range(1, maxops + 1):
+        small = tier == "quick" or count == 40000    # 40000 key groups: an operator builds one timer queue per group (seconds per deploy)
+        for m in range(1, (3 if small else maxops) + 1):
+            for n in range(1, (3 if small else maxops) + 1):
                 perms = list(itertools.permutations(range(1, m + 1)))
-                if tier == "quick" and len(perms) > 3:   # quick: identity, reversal and one more (seeded); thorough: all
+                if small and len(perms) > 3:   # quick: identity, reversal and one more (seeded); thorough: all
                     perms = [perms[0], perms[-1], perms[1 + rnd.randrange(len(perms) - 2)]]
                 for perm in perms:
                     v += 1
@@ -452,12 +453,12 @@ def run(c):
     if not q:
         exhaustive(c, "one rescale, counts 1..5,8, M,N<=4, 3 writes + 2 after restore", Counts={1, 2, 3, 4, 5, 8}, MaxOps=4, NGens=1,
                    MaxW1=3, MaxW2=2, Regimes={"major"}, timeout=2400)
-        exhaustive(c, "two rescales, 3 keys, count 3, M,N,M'<=3, major", Counts={3}, MaxOps=3, NKeys=3, NGens=2, MaxW1=3, MaxW2=2, MaxW3=0,
+        exhaustive(c, "two rescales, counts 2,3, M,N,M'<=3, 3+2 writes, major", Counts={2, 3}, MaxOps=3, NGens=2, MaxW1=3, MaxW2=2, MaxW3=0,
                    Regimes={"major"}, timeout=2400)
         exhaustive(c, "big counts 256 / 40000 (groups on both sides of 0x80), M,N<=3", Counts={256, 40000}, MaxOps=3, NGens=1, MaxW1=2, MaxW2=1,
                    Regimes={"major"}, timeout=1200)
-        exhaustive(c, "timers: counts 2,3, 2 keys x (state + 2 timers), 2 watermark advances", Counts={2, 3}, MaxOps=2, NGens=1, Times="@{10, 20}",
-                   MaxW1=3, MaxW2=1, MaxWm=2, MaxFl=1, Regimes={"major"}, timeout=1200)
+        exhaustive(c, "timers: counts 2,3, 2 keys x (state + 2 timers), watermark advance", Counts={2, 3}, MaxOps=2, NGens=1, Times="@{10, 20}",
+                   MaxW1=3, MaxW2=1, MaxWm=1, MaxFl=1, Regimes={"major"}, timeout=1200)
     c.exhaustive = True
     # ---- 2. the model distinguishes the repaired defects and the design mutations; their witnesses do not reproduce
     dev_witnesses(c, "Dev_MultiWalPanic", 2, "1 rescale", 12 if q else 40, Counts={2}, NGens=1, MaxW1=2, MaxW2=1, Regimes={"major"})
@@ -469,7 +470,7 @@ def run(c):
     # ---- 3. scripted scenarios elaborated by TLC (the spec's invariants are checked on them too), replayed
     wit = witnesses()
     scns = list(wit.values()) + grid(c.tier, c.seed) + big_counts(c.seed)
-    scns += random_scns(120 if q else 1500, c.seed * 7919 + 1, 3 if q else 6, [1, 2, 3, 4, 5, 8, 256] * 3 + [40000])
+    scns += random_scns(120 if q else 800, c.seed * 7919 + 1, 3 if q else 6, [1, 2, 3, 4, 5, 8, 256] * 3 + [40000])
     behs, results = elaborate(c, scns, "scenarios", invariants=INVS)
     for r in results:
         if r.violated or r.error:
@@ -482,11 +483,11 @@ def run(c):
         c.sample(dict(kind="Rescale scenario elaborated by TLC and replayed on real operators (jobs.Assembly.Deploy)",
                       steps=[{k: v for k, v in s.items() if k not in ("lay", "pred")} for s in behs[3][:30]]))
     # ---- 4. random walks of the spec itself
-    n = 60 if q else 500
+    n = 60 if q else 300
     for i, kw in enumerate([dict(Counts={2, 3, 5}, MaxOps=3, NGens=2, NKeys=3, Times="@{10, 20}", MaxW1=5, MaxW2=3, MaxW3=2, MaxFl=3, MaxWm=2, MaxCk=2, MaxLen=44),
                             dict(Counts={256} if q else {8, 256, 40000}, MaxOps=3 if q else 6, NGens=2, NKeys=3, Times="@{10}", MaxW1=4, MaxW2=3, MaxW3=1,
                                  MaxFl=2, MaxWm=1, MaxLen=36)]):
-        walks, r = vlib.gen_behaviours("Rescale", consts(Canon=False, **kw), n if i == 0 else n // 2, 60, c.seed * 100 + i, timeout=600)
+        walks, r = vlib.gen_behaviours("Rescale", consts(Canon=False, **kw), n if i == 0 else n // 3, 60, c.seed * 100 + i, timeout=600)
         c.states += r.generated
         c.transitions += r.generated
         run_replay(c, walks, "TLC -simulate walks %d" % i, chunk=25, timeout=3000)
